@@ -11,6 +11,7 @@
 -/
 import CC.ChaCha.Refine7
 import CC.ChaCha.Src
+import CC.ChaCha.SrcSeekNum
 namespace CC.Thm.C02
 open CC CC.Simd CC.ChaCha CC.ChaCha.Spec
 
@@ -278,5 +279,47 @@ theorem source_glue_match :
       CC.Src.src_chacha_streamcipher_try_apply_keystream_8 M p b c d out hv len fresh data dr,
       CC.Src.src_chacha_streamcipher_try_apply_keystream_24 M p b c d out hv len fresh data dr⟩,
    CC.Src.src_chacha_structs, CC.Src.src_chacha_trait_impls⟩
+
+/-- **Translator tie for the integer-type conversions of the `cipher` crate** (third-party code at the version pinned in
+    `/repo/Cargo.lock`; `lean/CC/Gen/SeekNumSrc.lean` is regenerated by `tools/inventory_seeknum.py` on every run; obligations
+    `CC.Src.src_seeknum_*` in `lean/CC/ChaCha/SrcSeekNum.lean`).  The list of types `impl_seek_num!` is invoked for is the list of
+    constructors of `SeekTy`; for every one of them the translated `from_block_byte` — at every `u128` block number, every byte
+    offset `< 64` (what the struct invariant `-64 < have ≤ 64` lets `try_current_pos` pass) and `bs = BLOCK as u8 = 64`, in both
+    profiles — does not panic and IS the named primitive `fromBlockByteP t` the glue obligations (`source_glue_match`) take as a
+    parameter; the translated `to_block_byte` (not called by the glue) never panics for a non-zero block size and is
+    `(pos / 64, pos % 64)`; `pos.try_into()` to `u64` as `source_glue_match` writes it is the reading table's `tryConv` (core's
+    `TryFrom`: trusted); the `&mut C` impl of `StreamCipher` forwards each method unchanged. -/
+theorem source_seeknum_match :
+    CC.Gen.SeekNumSrc.seeknum_errors = [] ∧
+    CC.Gen.SeekNumSrc.seeknum_types = CC.Src.seekTyAll.map CC.Src.seekTyName ∧
+    (∀ t : SeekTy, t ∈ CC.Src.seekTyAll) ∧
+    CC.Gen.SeekNumSrc.seeknum_methods = ["from_block_byte", "to_block_byte"] ∧
+    (∀ (t : SeekTy) (p : Profile) (block : BitVec 128) (byte : BitVec 8), byte.toNat < 64 →
+      CC.Src.genFromBlockByte t p (block.toNat : Int) (byte.toNat : Int) 64 =
+        .ok ((CC.Src.fromBlockByteP t block byte 64#8).map Int.ofNat)) ∧
+    (∀ (t : SeekTy) (block byte pos : Nat), byte < 64 → fromBlockByte t block byte = some pos → pos ≤ t.max) ∧
+    (∀ (t tgt : SeekTy) (p : Profile) (pos : Nat),
+      CC.Src.genToBlockByte t p tgt.min (tgt.max : Nat) (pos : Int) 64 =
+        .ok ((CC.Src.toBlockByte tgt pos).map CC.Src.natPair)) ∧
+    (∀ (t : SeekTy) (p : Profile) (tlo thi self bs : Int), 0 < bs → bs ≤ 255 →
+      ∃ r, CC.Src.genToBlockByte t p tlo thi self bs = .ok r) ∧
+    (∀ (t : SeekTy) (block byte pos : Nat), byte < 64 → fromBlockByte t block byte = some pos →
+      CC.Src.toBlockByte .u128 pos = some (block, byte)) ∧
+    (∀ pos : Int, CC.Src.tryIntoU64 pos =
+      (CC.Gen.SeekNumSrc.tryConv 0 18446744073709551615 pos).map (fun x => BitVec.ofNat 64 x.toNat)) ∧
+    (CC.Gen.SeekNumSrc.refmut_bound = "C : StreamCipher" ∧
+     CC.Gen.SeekNumSrc.refmut_methods =
+       [("apply_keystream", "apply_keystream", ["self", "data"], ["self", "data"]),
+        ("try_apply_keystream", "try_apply_keystream", ["self", "data"], ["self", "data"])]) ∧
+    (∀ (S D R : Type) (f : S → D → R), CC.Gen.SeekNumSrc.refmut_apply_keystream f = f ∧
+      CC.Gen.SeekNumSrc.refmut_try_apply_keystream f = f) :=
+  ⟨CC.Src.src_seeknum_clean, CC.Src.src_seeknum_types, CC.Src.seekTyAll_complete, CC.Src.src_seeknum_methods,
+   fun t p block byte hb => CC.Src.src_seeknum_from_block_byte t p block byte hb,
+   fun t block byte pos hb h => CC.Src.src_seeknum_from_block_byte_in_range t block byte pos hb h,
+   CC.Src.src_seeknum_to_block_byte,
+   fun t p tlo thi self bs h1 h2 => CC.Src.src_seeknum_to_block_byte_no_panic t p tlo thi self bs h1 h2,
+   fun t block byte pos hb h => CC.Src.toBlockByte_fromBlockByte t block byte pos hb h,
+   CC.Src.src_seeknum_try_into_u64, CC.Src.src_seeknum_refmut_methods,
+   fun _ _ _ f => ⟨CC.Src.src_seeknum_refmut_apply_keystream f, CC.Src.src_seeknum_refmut_try_apply_keystream f⟩⟩
 
 end CC.Thm.C02
